@@ -5,6 +5,8 @@ import Mastverif.Model.Canon
 import Mastverif.Model.Diff
 import Mastverif.Model.Cursor
 import Mastverif.Model.Loads
+import Mastverif.Model.Loader
+import Mastverif.Model.Backends
 import Std.Data.HashMap
 /-!
 # Line-protocol driver for the executable models (compiled as `mastmodel`)
@@ -30,11 +32,19 @@ structure St where
   nodes : Std.HashMap String T := {}
   bytes : Std.HashMap String Bytes := {}
   cursors : Std.HashMap Nat Path := {}
+  kv : Std.HashMap String KV.Store := {}
 
 def hexDigit (n : Nat) : Char := if n < 10 then Char.ofNat (48 + n) else Char.ofNat (87 + n)
 def hex (b : Bytes) : String :=
   String.ofList (b.foldr (fun x acc => hexDigit (x.toNat / 16) :: hexDigit (x.toNat % 16) :: acc) [])
 def bstr (b : Bytes) : String := String.ofList (b.map fun x => Char.ofNat x.toNat)
+
+def unhexL : List Char → Bytes
+  | a :: b :: rest =>
+      let d (c : Char) : Nat := if c.toNat ≥ 97 then c.toNat - 87 else c.toNat - 48
+      (d a * 16 + d b).toUInt8 :: unhexL rest
+  | _ => []
+def unhexS (s : String) : Bytes := unhexL s.toList
 
 def St.enc (s : St) : Enc := stdEnc s.cfg.fmt s.cfg.kk s.cfg.vk
 def St.layer (s : St) : Key → Nat := layerOf s.cfg.kk s.cfg.bf
@@ -196,12 +206,7 @@ partial def step (s : St) (line : String) : St × String :=
         | _ => (0, 0)
       (s, shape (Tree.canon s.cfg.bf s.layer parsed).root)
   | ["name", hx] =>
-      let rec unhex : List Char → Bytes
-        | a :: b :: rest =>
-            let d (c : Char) : Nat := if c.toNat ≥ 97 then c.toNat - 87 else c.toNat - 48
-            (d a * 16 + d b).toUInt8 :: unhex rest
-        | _ => []
-      (s, bstr (blakeName (unhex hx.toList)))
+      (s, bstr (blakeName (unhexS hx)))
   | [cmd@"diffstop", o, n, j] | [cmd@"differr", o, n, j] =>
       -- the callback sees events 0..j and then stops (returns false / an error)
       let (_, all) := step s s!"diff {o} {n}"
@@ -308,6 +313,56 @@ partial def step (s : St) (line : String) : St × String :=
       match nat slot >>= (s.trees[·]?), nat k, nat j with
       | some m, some k, some j => (s, "[" ++ showList ((Cursor.seekIter 100000 m.root k).take j) ++ "]")
       | _, _, _ => (s, "bad-slot")
+  | ["loadroot", fmt, kk, bf, height, order, link, top] =>
+      match parseKK kk, nat bf, nat height with
+      | some kk, some bf, some h =>
+          let topB : Option Bytes := if top == "missing" then none else if top == "-" then some [] else some (unhexS top)
+          let fmtS := if fmt == "-" then "" else fmt
+          match Loader.loadMast fmtS kk (layerOf kk bf) h (order == "desc") (link == "1") topB with
+          | .ok => (s, "ok")
+          | .err _ => (s, "err")
+          | .panic _ => (s, "panic")
+      | _, _, _ => (s, "bad-op")
+  | ["crclayer", bf, hx] =>
+      match nat bf with
+      | some bf => (s, s!"{uintLayer bf (crc64 (unhexS hx))}")
+      | none => (s, "bad-op")
+  | ["kverr"] => (s, "err")
+  | ["echo", x] => (s, x)
+  | ["cmp", a, b] =>
+      match nat a, nat b with
+      | some a, some b => (s, if a < b then "-1" else if a = b then "0" else "1")
+      | _, _ => (s, "bad-op")
+  | ["cmpbytes", a, b] =>
+      -- `bytes.Compare` of two marshaled keys (the default order of key types without a case of their own)
+      let rec cmpL : Bytes → Bytes → String
+        | [], [] => "0"
+        | [], _ => "-1"
+        | _, [] => "1"
+        | x :: xs, y :: ys => if x < y then "-1" else if y < x then "1" else cmpL xs ys
+      (s, cmpL (unhexS a) (unhexS b))
+  | ["defaults"] => (s, "16 v1.1.5binary")
+  | ["kvstore", be, name, hx] =>
+      let st := (s.kv[be]?).getD []
+      ({ s with kv := s.kv.insert be (KV.store st name (if hx == "-" then [] else unhexS hx)) }, "ok")
+  | ["kvload", be, name] =>
+      match KV.load ((s.kv[be]?).getD []) name with
+      | some b => (s, "ok " ++ (if b.isEmpty then "-" else hex b))
+      | none => (s, "err")
+  | ["fcrash", len, cut] =>
+      match nat len, nat cut with
+      | some len, some cut =>
+          let bytes : Bytes := (List.range len).map fun i => (i % 251).toUInt8
+          let d1 := FS.storeCut [] "node" bytes cut
+          let after := match KV.load d1 "node" with
+            | some b => if b == bytes then "complete" else "partial"
+            | none => "absent"
+          let d2 := FS.storeCut d1 "node" bytes (FS.complete "node" bytes)
+          let again := match KV.load d2 "node" with
+            | some b => if b == bytes then "complete" else "partial"
+            | none => "absent"
+          (s, s!"{after} {again}")
+      | _, _ => (s, "bad-op")
   | ["layer", kk, bf, k] =>
       match parseKK kk, nat bf, nat k with
       | some kk, some bf, some k => (s, s!"{layerOf kk bf k}")
